@@ -83,6 +83,8 @@ def _random_records(ctx, count):
         nb = int(rng.randint(2, 12))
         inner = sorted(set(int(x) for x in rng.randint(1, T + 1, size=nb - 2)))
         bounds = [0] + inner + [T + 1]
+        if rid % 5 == 0 and len(inner) >= 2:
+            bounds = inner                    # a grid that starts after the first spikes and ends before the last ones
         nkept = int(rng.randint(1, 8))
         nreq = int(rng.choice([NONE, 0, 1, 2, 5, 50, 1000]))
         req = as_list(rng.permutation(ids + [77])[:int(rng.randint(0, len(ids) + 2))])
